@@ -391,10 +391,20 @@ def real_tree_check(ctx, toks, fnames, root, idx):
 
 def wcmatch_tree_check(ctx, root, idx):
     """WcMatch without HIDDEN never returns a file with a hidden component; with HIDDEN a pattern like `*` matches dot files."""
-    for pat in ('*', '?*', '[!x]*', '@(*)', '.h|*', '!x'):
+    # (an empty or absent file pattern selects every file - but no hidden one without HIDDEN; also with bytes arguments)
+    for pat in ('*', '?*', '[!x]*', '@(*)', '.h|*', '!x', '', None, b'', b'*', '|', '*|'):
         for fl in (WM.RECURSIVE | WM.EXTMATCH, WM.RECURSIVE | WM.EXTMATCH | WM.FILEPATHNAME | WM.GLOBSTAR,
                    WM.RECURSIVE | WM.EXTMATCH | WM.HIDDEN):
-            res = WM.WcMatch(root, pat, flags=fl).match()
+            if isinstance(pat, bytes):
+                res = [os.fsdecode(x) for x in WM.WcMatch(os.fsencode(root), pat, flags=fl).match()]
+                pat = pat.decode()
+            elif pat is None:
+                res = WM.WcMatch(root, flags=fl).match()
+                pat = ''
+            else:
+                res = WM.WcMatch(root, pat, flags=fl).match()
+            if pat in ('', '|', '*|') and not fl & WM.FILEPATHNAME:
+                pat = '*'
             ctx.evals()
             for r in res:
                 ctx.count('real_tree_results_checked')
